@@ -558,10 +558,15 @@ func (ro *RedisOutput) parseAofReplayUnits(replayQuit usync.WaitCloser, reader *
 			continue
 		}
 
+		// the tool's own bookkeeping (marker, records, checkpoints) is not subject to the output
+		// filters : inside a transaction the marker is what tells a mirrored transaction from a
+		// foreign one, filtering it out would make the own write bounce between the sites for ever
+		ownBookkeeping := touchesBisyncNamespace(bisyncAofCommand{Cmd: sCmd, Args: argv})
+
 		ignoresentinel := false
 		ignoreCmd := false
 		selectDB := -1
-		if sCmd != "ping" {
+		if sCmd != "ping" && !ownBookkeeping {
 			if strings.EqualFold(sCmd, "select") {
 				if len(argv) != 1 {
 					return fmt.Errorf("syncer(%s): select command len(args)=%d", ro.cfg.InputName, len(argv))
@@ -596,11 +601,14 @@ func (ro *RedisOutput) parseAofReplayUnits(replayQuit usync.WaitCloser, reader *
 			continue
 		}
 
-		newArgv, reject := ro.outFilter.FilterCmdKey(sCmd, argv)
-		if bypass || reject {
-			ro.filterCounterAdd(1)
-			prevOffset = endOffset
-			continue
+		newArgv, reject := argv, false
+		if !ownBookkeeping {
+			newArgv, reject = ro.outFilter.FilterCmdKey(sCmd, argv)
+			if bypass || reject {
+				ro.filterCounterAdd(1)
+				prevOffset = endOffset
+				continue
+			}
 		}
 
 		cmd := makeCmd(sCmd, newArgv, endOffset)
